@@ -83,6 +83,31 @@ theorem C08_accessors_by_stored_name (enc : Enc) (ks : Bytes) (m : HMap) :
     have hb := isBinKey_fixed_norm ks n h
     cases enc <;> simp only [validKey, hb, ownCategory] <;> by_cases hx : Spec.Metadata.isBinName n = true <;> simp [hx]
 
+/-- The same for the write side: `entry(key)` / `entry_bin(key)` with a `&str` key hands out an
+entry (and possibly inserts) only when the *stored* name's category is its own; otherwise, and
+for strings that are not header names, it fails and the map is unchanged. -/
+theorem C08_entry_by_stored_name (enc : Enc) (ks val : Bytes) (m : HMap) :
+    match (entryOrInsert .fixed enc ks val m).1 with
+    | .entry _ => ∃ n, HMap.normName ks = some n ∧ ownCategory enc n = true
+    | _ => (entryOrInsert .fixed enc ks val m).2 = m := by
+  unfold entryOrInsert
+  cases h : HMap.normName ks with
+  | none => by_cases hv : validKey .fixed enc ks = true <;> simp [hv]
+  | some n =>
+    have hb := isBinKey_fixed_norm ks n h
+    have hown : validKey .fixed enc ks = ownCategory enc n := by
+      cases enc <;> simp only [validKey, hb, ownCategory] <;>
+        by_cases hx : Spec.Metadata.isBinName n = true <;> simp [hx]
+    by_cases hv : validKey .fixed enc ks = true
+    · simp only [hv, Bool.not_true, Bool.false_eq_true, if_false]
+      cases valueFromBytes enc val with
+      | none => simp
+      | some w =>
+        cases HMap.get n m with
+        | none => exact ⟨n, rfl, by rw [← hown]; exact hv⟩
+        | some cur => exact ⟨n, rfl, by rw [← hown]; exact hv⟩
+    · simp [hv]
+
 /-- On the pinned tree as found this fails: `get("foo-BIN")` returns the binary entry stored
 under `foo-bin`, typed as ASCII. -/
 theorem C08_accessors_unfixed_fails :
@@ -231,32 +256,36 @@ theorem C08_typed_build (es : List (Enc × Bytes × Bytes)) :
     buildTyped .fixed es = es.filterMap (storedEntry .fixed) :=
   buildTyped_eq .fixed es
 
-/-- **End to end, request direction.** For every list of typed entries a caller attaches and
-every non-reserved name `n`: what the server-side typed view (`iter()` + `to_bytes()`) shows under
-`n` is exactly the accepted entries of that name in order, in the category of the name, with
-ASCII values verbatim and binary values restored to the original bytes. -/
-theorem C08_request_end_to_end (es : List (Enc × Bytes × Bytes)) (n : Bytes)
-    (hn : n ∉ Spec.Metadata.reserved) :
-    (typedView .fixed (requestWire (buildTyped .fixed es))).filterMap
-        (fun r => if r.2.1 = n then some (r.1, r.2.2) else none) =
-      (es.filterMap (fun e => match storedEntry .fixed e with
-        | some (k, _) => if k = n then some (e.1, some e.2.2) else none
-        | none => none)) := by
-  rw [typedView_of_name, C08_preserved_request _ _ hn, buildTyped_eq]
+/-- what a receiver's typed view must show under name `n` for the typed entries `es` a sender
+attached: the accepted entries of that name in call order, each in its own category with its
+original bytes (ASCII verbatim, binary restored) -/
+def expectedUnder (es : List (Enc × Bytes × Bytes)) (n : Bytes) : List (Enc × Option Bytes) :=
+  es.filterMap (fun e => match storedEntry .fixed e with
+    | some (k, _) => if k = n then some (e.1, some e.2.2) else none
+    | none => none)
+
+/-- the rows of a typed view (`iter()` + `to_bytes()`) under name `n`, in order -/
+def viewUnder (m : HMap) (n : Bytes) : List (Enc × Option Bytes) :=
+  (typedView .fixed m).filterMap (fun r => if r.2.1 = n then some (r.1, r.2.2) else none)
+
+private theorem built_rows (es : List (Enc × Bytes × Bytes)) (n : Bytes) :
+    (HMap.getAll n (es.filterMap (storedEntry .fixed))).map (fun w =>
+        let enc := if validKey .fixed .ascii n then Enc.ascii else Enc.binary
+        (enc, valueToBytes enc w)) = expectedUnder es n := by
+  unfold expectedUnder
   induction es with
   | nil => simp [HMap.getAll_nil]
   | cons e es ih =>
     rw [List.filterMap_cons, List.filterMap_cons]
     cases hs : storedEntry .fixed e with
-    | none => simp only [hs]; exact ih
+    | none => simp only []; exact ih
     | some kw =>
       obtain ⟨k, w⟩ := kw
-      simp only [hs]
+      simp only []
       rw [HMap.getAll_cons]
       by_cases hk : k = n
       · subst hk
         simp only [if_true, List.map_cons, ih]
-        -- the stored entry's category and value
         unfold storedEntry at hs
         cases hkey : keyFromBytes .fixed e.1 e.2.1 with
         | none => simp [hkey] at hs
@@ -292,6 +321,55 @@ theorem C08_request_end_to_end (es : List (Enc × Bytes × Bytes)) (n : Bytes)
               subst hval
               simp [valueToBytes, B64.decode_encode]
       · simp only [hk, if_false]; exact ih
+
+/-- core of the end-to-end theorems: any received map that has, under `n`, the values the
+typed build has under `n`, shows exactly the sender's entries of that name -/
+private theorem view_of_built (es : List (Enc × Bytes × Bytes)) (n : Bytes) (m : HMap)
+    (hm : HMap.getAll n m = HMap.getAll n (buildTyped .fixed es)) :
+    viewUnder m n = expectedUnder es n := by
+  unfold viewUnder
+  rw [typedView_of_name, hm, buildTyped_eq]
+  exact built_rows es n
+
+/-- **End to end, request direction.** For every list of typed entries a caller attaches and
+every non-reserved name `n`: what the server-side typed view (`iter()` + `to_bytes()`) shows under
+`n` is exactly the accepted entries of that name in call order, in the category of the name, with
+ASCII values verbatim and binary values restored to the original bytes. -/
+theorem C08_request_end_to_end (es : List (Enc × Bytes × Bytes)) (n : Bytes)
+    (hn : n ∉ Spec.Metadata.reserved) :
+    viewUnder (requestWire (buildTyped .fixed es)) n = expectedUnder es n :=
+  view_of_built es n _ (C08_preserved_request _ _ hn)
+
+/-- **End to end, response direction.** Likewise for the entries a handler attaches to its
+response, as seen by the client in the response headers and in what a unary call returns. -/
+theorem C08_response_end_to_end (es : List (Enc × Bytes × Bytes)) (n : Bytes)
+    (hn : n ∉ Spec.Metadata.reserved) :
+    viewUnder (responseWire (buildTyped .fixed es)) n = expectedUnder es n ∧
+    viewUnder (clientUnaryMetadata (buildTyped .fixed es)) n = expectedUnder es n :=
+  ⟨view_of_built es n _ (C08_preserved_response _ _ hn).1, view_of_built es n _ (C08_preserved_response _ _ hn).2⟩
+
+/-- **End to end, error statuses and trailers.** Likewise for the entries attached to a
+`Status` (any code, message, details), whether it travels as trailers (`h0 = []`) or as a
+trailers-only response (`h0 = [content-type]`): the status the client obtains shows them under
+every custom name. -/
+theorem C08_status_end_to_end (code : Status.Code) (msg det : Bytes) (es : List (Enc × Bytes × Bytes))
+    (h0 : HMap) (n : Bytes) (hn : n ∉ Spec.Metadata.reserved) (hn2 : n ≠ Status.GRPC_STATUS_DETAILS)
+    (h0n : HMap.getAll n h0 = []) :
+    ∃ h st', Status.addHeader .fixed
+        { code := code, message := msg, details := det, metadata := buildTyped .fixed es } h0 = .ok h ∧
+      Status.fromHeaderMap .fixed h = some (.status st') ∧
+      viewUnder st'.metadata n = expectedUnder es n := by
+  obtain ⟨h, st', h1, h2, _, h4⟩ := C08_preserved_status
+    { code := code, message := msg, details := det, metadata := buildTyped .fixed es } h0 n hn hn2 h0n
+  exact ⟨h, st', h1, h2, view_of_built es n _ h4⟩
+
+/-- … and when the peer pads the base64 of a binary entry, the receiver's view is the same:
+decoding is indifferent to padding. -/
+theorem C08_padding_indifferent (n b : Bytes) (pad : Bool) (hb : Spec.Metadata.isBinName n = true)
+    (hwf : HMap.normName n = some n) :
+    typedView .fixed [(n, B64.encode pad b)] = [(Enc.binary, n, some b)] := by
+  have h := isBinKey_fixed_stored n hwf
+  simp [typedView, iter, validKey, h, hb, valueToBytes, B64.decode_encode]
 
 /-! ## non-vacuity -/
 
